@@ -63,6 +63,21 @@ package sessions
 //@     do commits = commits + 1
 //@   ensures[C10:second-call-is-noop] old(w.wroteHeader) ==> commits == 0
 //@   ensures[C10:first-call-commits] !old(w.wroteHeader) ==> commits == 1 && w.wroteHeader
+//@   ensures[C10:writer-wiring-kept] w.wrapped == old(w.wrapped) && (old(w.wroteHeader) ==> w.wroteHeader)
+
+// Write: a handler that writes a body without calling WriteHeader still goes through the cookie filter first
+// (otherwise net/http would commit the backend's Set-Cookie fields implicitly); the bytes go to the wrapped writer as given.
+//@ func (*sessionResponseWriter).Write props(C10,C07)
+//@   requires w != nil && w.c != nil && w.c.cache != nil && !held(w.c.mu) && w.wrapped != nil && w.urlForCookies != nil && (!w.wroteHeader ==> rwWrites[w.wrapped] == 0)
+//@   ghost commits int = 0
+//@   ghost writes int = 0
+//@   call (*sessionResponseWriter).WriteHeader
+//@     assert[C10:implicit-commit-goes-through-the-cookie-filter] !w.wroteHeader && arg0 == w && arg1 == 200 && writes == 0 && commits == 0
+//@     do commits = commits + 1
+//@   call (http.ResponseWriter).Write
+//@     assert[C10:body-written-only-after-the-cookie-filter-ran] arg0 == old(w.wrapped) && arg1 == bs && w.wroteHeader && writes == 0
+//@     do writes = writes + 1
+//@   ensures[C10:body-passed-on-once] writes == 1
 
 // restoreSession: the Cookie header becomes the client's cookies without the session cookie (every other one kept, in
 // order), followed by the cached cookies of the session in order.
